@@ -208,10 +208,10 @@ func (c *cluster) checkDense(out *cq.Out, snaps []*balloon.Snapshot, evs [][]byt
 
 func clusterCmd(out *cq.Out, seed uint64, tier string) {
 	rng := cq.NewRng(seed)
-	scenarios := 1
-	steps := 14
+	scenarios := 6
+	steps := 20
 	if tier == "thorough" {
-		scenarios, steps = 5, 30
+		scenarios, steps = 30, 40
 	}
 	for sc := 0; sc < scenarios; sc++ {
 		dir, _ := os.MkdirTemp(out.Dir, "cl")
